@@ -67,6 +67,9 @@ func (e *miniEval) expr(x ast.Expr) int64 {
 		if cv.Kind().String() == "Bool" {
 			return b2i(cv.ExactString() == "true")
 		}
+		if cv.Kind().String() == "String" {
+			return internString(cv.ExactString())
+		}
 		return e.fail("constant " + cv.ExactString())
 	}
 	switch y := x.(type) {
@@ -143,6 +146,10 @@ func (e *miniEval) expr(x ast.Expr) int64 {
 		}
 		if core.ExprStr(y.Fun) == "append" && len(y.Args) >= 1 && e.lens[core.ExprStr(y.Args[0])] && !y.Ellipsis.IsValid() {
 			return e.env[core.ExprStr(y.Args[0])] + int64(len(y.Args)-1)
+		}
+		if core.ExprStr(y.Fun) == "append" && len(y.Args) == 2 && e.lens[core.ExprStr(y.Args[0])] && y.Ellipsis.IsValid() {
+			// append(x, ys...): the appended list is evaluated for its effects; its length is the value
+			return e.env[core.ExprStr(y.Args[0])] + e.expr(y.Args[1])
 		}
 		if core.ExprStr(y.Fun) == "make" && len(y.Args) >= 2 {
 			if t := core.TypeOf(e.pk, y.Args[0]); t != nil {
@@ -600,4 +607,18 @@ func (e *miniEval) rangeElems(x ast.Expr) ([]int64, bool) {
 		return out, true
 	}
 	return nil, false
+}
+
+var (
+	internTable = map[string]int64{}
+)
+
+// internString gives every distinct string constant a number of its own (strings are only compared).
+func internString(s string) int64 {
+	if v, ok := internTable[s]; ok {
+		return v
+	}
+	v := int64(1_000_000 + len(internTable))
+	internTable[s] = v
+	return v
 }
